@@ -53,11 +53,17 @@ def run_conc(prop, tier, seed, replay, extra=None):
     t = qv.Timer()
     rng = qv.Rng(seed)
     gate = {'ok': True, 'obligations': 0, 'discharged': 0, 'failed': None, 'axioms': [], 'checker_cmd': '', 'gen': {}}
+    if prop == 'C06':
+        gate = common.proof_gate('C06', ['Model/Cache.v', 'Proofs/CacheProps.v', 'Props/C06.v'])
     rc, out = qv.harness_build()
     if rc != 0:
         print(out[-3000:])
         return 2
-    n = 120 if tier == 'quick' else 4000
+    cache_finds, cache_steps = [], 0
+    if prop == 'C06':
+        import cachesim
+        cache_finds, cache_steps = cachesim.run(rng, 200 if tier == 'quick' else 3000)
+    n = 600 if tier == 'quick' else 6000
     d = qv.workdir(prop.lower())
     cases = []
     for k in range(n):
@@ -136,9 +142,14 @@ def run_conc(prop, tier, seed, replay, extra=None):
                     bi, vals[diff[0]] if diff else '(open/read failed)', diff[0] if diff else -1, want[diff[0]] if diff else '-'), bi, ''))
             elif ' valid=1 ' not in vd.get(p, ''):
                 finds.append(('flag', c, 'need_flush_meta() returned false after batch %d, but the file is not a valid image: %s' % (bi, vd.get(p, '')[len(p):][:160]), bi, ''))
+    cache_violations = []
+    for (si, st, desc, script) in cache_finds[:3]:
+        pth = qv.write_replay(prop, 'cache_%d.json' % si, json.dumps({'class': 'cache-model', 'what': desc, 'script(limit op:key ...)': script}))
+        cache_violations.append({'replay': pth})
+        print('  finding [cache model vs src/cache.rs]: %s' % desc[:400])
     mine = [f for f in finds if f[0] in PROJ[prop]]
     other = collections.Counter(f[0] for f in finds if f[0] not in PROJ[prop])
-    violations, known = [], []
+    violations, known = list(cache_violations), []
     kfs = [f for f in qv.known_findings().get('findings', []) if f.get('property') == prop]
     seen = collections.Counter()
     for (cls, c, desc, bi, sched) in mine:
@@ -167,6 +178,8 @@ def run_conc(prop, tier, seed, replay, extra=None):
            'samples': [{'geometry': c['g'].desc(), 'batch': [hist.op_line(o) for o in c['batches'][0]['ops']], 'mode': c['batches'][0]['mode']} for c in cases[:3]],
            'states': nsched, 'transitions': nsched, 'distribution': dict(stats), 'findings_left_to_other_properties': dict(other), 'findings_by_class': dict(seen)}
     cov.update(extra or {})
+    if prop == 'C06':
+        cov['cache_model_steps_compared'] = cache_steps
     return common.finish(prop, tier, seed, 'exploration', gate, cov, t, violations, known,
                          ['schedules are sampled, not enumerated; the linearizability checker applies necessary conditions only (every alarm is a real violation, silence is not a proof)',
                           'the backend completes every request the scheduler chooses; lock fairness as implemented by futures_locks'],
